@@ -858,6 +858,20 @@ def run (j : Json) : Except String Json := do
             let v ← valOfJson a[1]!
             pure (n, v)))
         pure (some ls))
+  -- `call`: the first look-up holds ALL the arguments of the decorated function's call; the model builds the condition's
+  -- own look-up from it (`condLookup`: the arguments the condition takes, then the defaults of its other parameters)
+  let isCall := (j.getObjValAs? Bool "call").toOption.getD false
+  let condParams0 := (j.getObjValAs? (List String) "condParams").toOption.getD []
+  let defaultsJ := (j.getObjValAs? (Array Json) "condDefaults").toOption.getD #[]
+  let defaults ← defaultsJ.toList.mapM (fun p => do
+    let a ← (fromJson? p : Except String (Array Json))
+    let n ← (fromJson? a[0]! : Except String String)
+    let v ← valOfJson a[1]!
+    pure (n, v))
+  let cparams : List CondParam := condParams0.map (fun n => (n, none)) ++ defaults.map (fun p => (p.1, some p.2))
+  let lookups := match lookups with
+    | some (kw :: rest) => if isCall then some (condLookup cparams kw :: rest) else some (kw :: rest)
+    | other => other
   let names := match lookups with | some ls => pyScope ls | none => names
   let env : Env := { names := names, builtins := bi.map (fun n => (n, Ex.Val.fn n)) }
   let py := pyEval ops env e
